@@ -611,6 +611,33 @@ ENTRY_ALLOWED = {
 }
 
 
+def _callers_index(pm):
+    """method / function name -> set of qualified names of the functions that call something of that name"""
+    idx = {}
+    for mod, (rel, tree, src) in pm.modules.items():
+        for c in ast.walk(tree):
+            if isinstance(c, ast.Call):
+                nm = c.func.attr if isinstance(c.func, ast.Attribute) else c.func.id if isinstance(c.func, ast.Name) else None
+                if nm:
+                    idx.setdefault(nm, set()).add(_enclosing(c)[0])
+    # calls that the canonical form replaced by the callee's body still count as calls
+    for nm, into in (getattr(pm, "canon_stats", {}) or {}).get("inlined_into", {}).items():
+        idx.setdefault(nm, set()).update(into)
+    return idx
+
+
+def _delegated(q, allowed, callers, depth=3):
+    """q is not in the frozen writer set itself, but every function that calls it is (transitively): a step split out of
+    an allowed writer and used by nobody else inherits the allowance; any other caller makes it a new writer"""
+    name = q.split(".")[-1]
+    if name.startswith("__") or depth == 0:
+        return False
+    cs = callers.get(name, set()) - {q}
+    if not cs:
+        return False
+    return all(c in allowed or _delegated(c, allowed, callers, depth - 1) for c in cs)
+
+
 def _enclosing(n):
     fn, cls = None, None
     x = n
@@ -629,6 +656,7 @@ def r_entry(E):
     res = RuleResult("R-ENTRY", "the only code that stores into a model object's attribute dictionary without going "
                                 "through ModelingObject.__setattr__ is a frozen set of framework functions; every "
                                 "__setattr__ override delegates with the same arguments; the wrapper forwards")
+    callers = _callers_index(pm)
     for mod, (rel, tree, src) in sorted(pm.modules.items()):
         for n in ast.walk(tree):
             site = None
@@ -654,6 +682,11 @@ def r_entry(E):
                 continue
             q, fn = _enclosing(site)
             res.instances += 1
+            if q not in ENTRY_ALLOWED and _delegated(q, set(ENTRY_ALLOWED), callers):
+                if len(res.samples) < 6:
+                    res.samples.append({"function": q, "site": norm(site)[:80],
+                                        "allowed_because": "a step of an allowed writer, called by nothing else"})
+                continue
             if q not in ENTRY_ALLOWED:
                 res.findings.append(Finding(
                     "R-ENTRY", f"{q} :: {norm(site)[:100]}",
@@ -807,6 +840,7 @@ def r_edge(E):
     pm = E.pm
     res = RuleResult("R-EDGE", "the bookkeeping of both ends of a dependency / link has single writers, and attaching / "
                                "detaching a value registers / deregisters it on the same ancestors")
+    edge_callers = _callers_index(pm)
     for mod, (rel, tree, src) in sorted(pm.modules.items()):
         for n in ast.walk(tree):
             hits = []
@@ -835,6 +869,8 @@ def r_edge(E):
                         f"{q} rebuilds the link registry instead of only appending to it: wrappers that are not attached "
                         f"*yet* (a batch update creates all of them before attaching any) are dropped, so an object "
                         f"referenced twice in one update is reported by one holder only", rel, n.lineno, q))
+                    continue
+                if q not in EDGE_WRITERS[h] and _delegated(q, set(EDGE_WRITERS[h]), edge_callers):
                     continue
                 if q not in EDGE_WRITERS[h]:
                     res.findings.append(Finding(
